@@ -106,7 +106,8 @@ pub fn heap_unit(ctx: &Ctx, rep: &mut Report) {
     let mut lines: Vec<String> = vec![];
     let mut impl_out: Vec<String> = vec![];
     for round in 0..rounds {
-        let n = rng.range(0, 24);
+        // mostly small heaps; one round in six is large (thresholds of "optimised" sift paths: 32, 64)
+        let n = if round % 6 == 5 { rng.range(25, 90) } else { rng.range(0, 24) };
         let tie_heavy = rng.below(2) == 0;
         let val = |rng: &mut Rng| -> f64 { if tie_heavy { (rng.below(4) + 1) as f64 } else { rng.unit() * 100.0 } };
         let mut h = kodama::verif::VHeap::<f64>::new();
@@ -121,7 +122,7 @@ pub fn heap_unit(ctx: &Ctx, rep: &mut Report) {
         let r = panic::catch_unwind(AssertUnwindSafe(|| h.heapify(&prios)));
         let pl: Vec<String> = prios.iter().map(|&x| f64_to_bits(false, x).to_string()).collect();
         push(format!("heap {} 64 {} heapify {}", id, chk, pl.join(" ")), match r { Ok(()) => format!("ok {}", parse_dump(&h.dump())), Err(_) => format!("panic {}", classify_panic()) }, &mut lines, &mut impl_out);
-        let nops = rng.range(2, 30);
+        let nops = if n > 24 { rng.range(20, 2 * n) } else { rng.range(2, 30) };
         for _ in 0..nops {
             match rng.below(6) {
                 0 | 1 => {
